@@ -24,8 +24,8 @@ CHECKS = {
    technique="deterministic simulation: seeded interleavings of pool submissions, block connections, reorgs and evictions with invariants checked after every step; lock-stepped simulated peers against the real p2p stack",
    note="Trusted base: harness wallet/miner (the history's blocks; the node's own block builder is run and judged on a replica); a block connection (process_block including the adapter's reconcile calls) is treated as atomic; reorg-cache ageing uses an explicit cutoff; in network runs acceptance is read from the pool's contents."),
  "C19": dict(engine="wiresim", cat="fault_enumeration", ref="5/C19",
-   text="The real Codec / write_message / read_message / Handshake run on one end of a loopback socket whose other end and fragmentation are owned by the simulator (fragment i+1 is released when FIONREAD reports fragment i consumed). Message sequences over every type and protocol versions 1/2/3/1000 (header lists of 0..65 headers, archive + streamed attachment, unknown types) are delivered unfragmented, at every single split point, with random multi-splits and as a one-byte dribble and must be read back as the identical sequence; over-limit and wrong-magic frame headers of every type must be refused having consumed exactly 11 bytes and without a large allocation; the handshake must settle on min(version), refuse another genesis and itself.",
-   technique="deterministic simulation: lock-stepped loopback transport with enumerated fragmentation and frame-limit faults",
+   text="The real Codec / write_message / read_message / Handshake run on one end of a loopback socket whose other end and fragmentation are owned by the simulator (fragment i+1 is released when FIONREAD reports fragment i consumed). Message sequences over every type and protocol versions 1/2/3/1000 (header lists of 0..65 headers, archive + streamed attachment, unknown types) are delivered unfragmented, at every single split point, with random multi-splits and as a one-byte dribble and must be read back as the identical sequence; over-limit and wrong-magic frame headers of every type must be refused having consumed exactly 11 bytes and without a large allocation; the handshake must settle on min(version), refuse another genesis and itself. One case in four (E11 netsim) connects a complete real node to peers that settled on versions 1, 2, 3 and 1000 and checks everything the node itself writes to them (relayed and stemmed transactions, compact-block and header broadcasts, answers to requests): each frame must decode at its connection's version and be something the node was given.",
+   technique="deterministic simulation: lock-stepped loopback transport with enumerated fragmentation and frame-limit faults; lock-stepped simulated peers at every protocol version against a complete real node",
    note="Trusted base: kernel loopback TCP; the harness copy of the documented per-type limits; inter-fragment gaps far below the I/O timeouts."),
  "C11": dict(engine="wiresim", cat="exploration", ref="5/C11",
    text="A simulated hostile peer feeds the real Codec (and, in a forked child, MerkleProof::from_hex) structure-aware mutations of real encodings of every message type at every protocol version: truncation + close, boundary values in every 64/32/16-bit window, every count-like window set to values around the decoders' own caps (with and without truncation shortly after), tag sweeps, random bodies, inconsistent lengths, spliced bodies. The reader thread must not panic, must return after EOF, and no single allocation may exceed twice the announced frame length (which the codec reserves, and refuses above 4x the per-type limit) plus 16x the bytes actually received plus 256 KiB; decoded values go through the stateless pre-state checks (validate_read, segment root reconstruction against the archive header). Bare frame headers announcing limit+1 .. 2^64-1 bytes for known and unused type bytes go through the Codec and through read_message in forked children (panic, abort, hang and over-allocation are exit statuses). One case in five a simulated hostile API client drives the real Foreign and Owner JSON-RPC dispatch over a real chain, pool and peer store with valid requests of every method and structure-aware mutations of their JSON trees and text, and feeds mutated replies to the typed decoders API consumers use (incl. OutputPrintable with its Merkle proof from hex): no panic, an answer within 20 s, allocation bounded by the document size. One case in five (E11 netsim) the hostile peer talks to a complete real node - conn reader / writer threads, Codec, Protocol, TrackingAdapter, Peers, NetToChainAdapter handlers over a real chain and pool -: every message type valid and mutated (length-consistent), and well-formed requests / answers naming things that are not there; no node thread may panic, every message is followed by a Pong or a closed connection, allocation stays bounded by the frame length, and the node still serves an honest peer afterwards.",
@@ -130,7 +130,7 @@ def main():
              "kind_free_text": "seeded baton scheduler over real threads on one real Chain"},
             {"name": "dbsim", "path": "/verif/sim/src/dbsim.rs", "serves_properties": [p for p in claimed if p == "C18"],
              "kind_free_text": "real LMDB wrapper against a nested-transaction map model; seeded thread schedules; crash points around commit"},
-            {"name": "netsim", "path": "/verif/sim/src/netsim.rs", "serves_properties": [p for p in claimed if p in ("C03", "C06", "C11", "C14", "C16")],
+            {"name": "netsim", "path": "/verif/sim/src/netsim.rs", "serves_properties": [p for p in claimed if p in ("C03", "C06", "C11", "C14", "C16", "C19")],
              "kind_free_text": "one real node with its complete p2p stack (Peers, Peer, Handshake, conn threads, Protocol, servers adapters, pool, chain) against simulated remote peers on lock-stepped loopback sockets"},
             {"name": "chainsim", "path": "/verif/sim/src/chainsim.rs", "serves_properties": [p for p in claimed if CHECKS[p]["engine"] == "chainsim" or p == "C08"],
              "kind_free_text": "deterministic simulation of N real Chain nodes on a simulated network with byzantine inputs"},
